@@ -117,6 +117,18 @@ def cases(rng, tier, shard, nshards):
                    "way": rng.choice(["attr", "set", "add"]), "vlevel": rng.choice([1, 1, 2, 3]), "kind": "header-api",
                    "version": None, "dialect": "standard", "entry": "api", "lines": base}
             continue
+        if rng.random() < 0.04:
+            # a Gfa whose version is not known yet gets a version-specific line object through
+            # connect(): the version follows, content of the other version is refused afterwards
+            v = rng.choice(["gfa1", "gfa2"])
+            decider = {"gfa1": [("S\tA\t*", None)],
+                       "gfa2": [("S\tA\t10\t*", None), ("E\te\tA+\tB+\t0\t1\t0\t1\t*", "gfa2"), ("G\tg\tA+\tB+\t1\t*", "gfa2"),
+                                ("O\to\tA+ B+", "gfa2"), ("U\tu\tA B", "gfa2"), ("F\tA\tr+\t0\t1\t0\t1\t*", "gfa2")]}[v]
+            line, lv = rng.choice(decider)
+            yield {"mode": "connect-decides", "gfa_version": v, "base": rng.sample(NEUTRAL_LINES, rng.randint(0, 2)),
+                   "line": line, "lv": lv, "way": rng.choice(["connect", "connect", "add_line"]), "vlevel": rng.choice([1, 1, 2, 3]),
+                   "kind": "object", "version": None, "dialect": "standard", "entry": "api", "lines": [line]}
+            continue
         if rng.random() < 0.08:
             # a line object of the other version handed to a Gfa whose version is known, through
             # add_line(Line) or the documented equivalent Line.connect(gfa)
@@ -300,9 +312,40 @@ def run_header_vn(case, ctx):
         ctx.violation("conflict-wrong-class/%s/after-header-api" % r2.cls(), "%s; then %r" % (cfg, other))
 
 
+def run_connect_decides(case, ctx):
+    g = gfapy.Gfa(vlevel=case["vlevel"])
+    for l in case["base"]:
+        if not call(ctx, "add_line(str)", g.add_line, l).ok:
+            return
+    lr = call(ctx, "Line(str)", gfapy.Line, case["line"], vlevel=case["vlevel"], **({"version": case["lv"]} if case["lv"] else {}))
+    if not lr.ok:
+        return
+    line = lr.value
+    rr = call(ctx, case["way"], (lambda: line.connect(g)) if case["way"] == "connect" else (lambda: g.add_line(line)))
+    ctx.count("deciding_objects_offered")
+    ctx.nontriv([case["base"], case["line"], case["way"], case["vlevel"]])
+    v = case["gfa_version"]
+    cfg = "Gfa of unknown version (level %d), %r given as Line object through %s" % (case["vlevel"], case["line"], case["way"])
+    if not rr.ok:
+        ctx.violation("single-version-refused/%s/%s/object-%s" % (v, rr.cls(), case["way"]), "%s: %s" % (cfg, str(rr.exc)[:200]))
+        return
+    if g.version != v:
+        ctx.violation("version-not-from-accepted-content/%s-instead-of-%s/object-%s" % (g.version, v, case["way"]),
+                      "%s: Gfa.version = %r" % (cfg, g.version))
+        return
+    other = {"gfa1": "S\tZ\t4\tACGT", "gfa2": "S\tZ\tACGT"}[v]
+    r2 = call(ctx, "add_line(str)", g.add_line, other)
+    if r2.ok:
+        ctx.violation("mixed-accepted/after-object-%s" % case["way"], "%s; then %r was accepted" % (cfg, other))
+    elif r2.cls() != "VersionError" and r2.kind == "gfapy":
+        ctx.violation("conflict-wrong-class/%s/after-object-%s" % (r2.cls(), case["way"]), "%s; then %r" % (cfg, other))
+
+
 def run(case, ctx):
     if case.get("mode") == "incremental":
         return run_incremental(case, ctx)
+    if case.get("mode") == "connect-decides":
+        return run_connect_decides(case, ctx)
     if case.get("mode") == "header-vn-api":
         return run_header_vn(case, ctx)
     if case.get("mode") == "object-of-other-version":
